@@ -40,9 +40,19 @@
                                                                       hinted MultiMap insert chose passes the
                                                                       reference's valid_pos test in every reachable
                                                                       state)
-   remove(key) (text silent on how many of a run of equal keys):
-   exactly one entry, the first of the run, goes; count(key) drops
-   by one, every other count is unchanged                          -> remove_key_removes_first_of_run
+   remove(key) on a MultiMap (text silent on which entry of a run
+   of equal keys goes): the REFERENCE takes the rank of the removed
+   entry as an input and accepts every entry that has the key - the
+   result is the sorted multimap with exactly that entry less, the
+   count of the key drops by one, every other count and the other
+   container stay; it rejects a rank that does not hold the key and
+   a remove that takes nothing although the key is present          -> reference_remove_key_accepts_any_entry_of_the_run,
+                                                                      remove_key_choice_valid (the model's rank is
+                                                                      accepted in every reachable state)
+   the MODEL (= the code) removes the first entry of the run        -> remove_key_removes_first_of_run (a fact about
+                                                                      the model only; a container that removes another
+                                                                      entry of the run differs from the model, not
+                                                                      from the reference)
    "finding any key among n entries needs at most
     2*floor(1.4405*log2(n+2)) key comparisons"                     -> find_cost_logarithmic (integer form, no
                                                                       axioms: floor(1.4405*log2 m) =
@@ -178,6 +188,28 @@ Theorem remove_key_removes_first_of_run : forall f ops k,
   forall k', count_list k' l' = if k' =? k then pred (count_list k' l) else count_list k' l.
 Proof. exact remove_key_one. Qed.
 Print Assumptions remove_key_removes_first_of_run.
+
+(* round 5: which entry of a run of equal keys remove(key) takes is an input of the reference (checked, not trusted) *)
+Theorem reference_remove_key_accepts_any_entry_of_the_run : forall sp k c,
+  let l := s_sel sp in
+  let sp' := fst (spec_step FMulti sp (ORemKey k) c) in
+  let r := snd (spec_step FMulti sp (ORemKey k) c) in
+  AvlSpec.sorted FMulti l ->
+  (AvlSpec.key_at k c l = true ->
+     r = RNone /\ s_sel sp' = remove_nth c l /\ AvlSpec.sorted FMulti (s_sel sp') /\ length (s_sel sp') = pred (length l) /\
+     s_other sp' = s_other sp /\
+     forall k', count_list k' (s_sel sp') = if k' =? k then pred (count_list k' l) else count_list k' l) /\
+  (has_key k l = true -> AvlSpec.key_at k c l = false -> r = RBad /\ sp' = sp) /\
+  (has_key k l = false -> r = RNone /\ sp' = sp).
+Proof. exact spec_remove_key_choice. Qed.
+Print Assumptions reference_remove_key_accepts_any_entry_of_the_run.
+
+Theorem remove_key_choice_valid : forall ops k,
+  let st := run FMulti m_init ops in
+  let l := inorder (tr (m_sel st)) in
+  has_key k l = true -> AvlSpec.key_at k (choice_of FMulti st (ORemKey k)) l = true.
+Proof. exact AvlRefine.remove_key_choice_valid. Qed.
+Print Assumptions remove_key_choice_valid.
 
 (* ---- (3) cost ------------------------------------------------------------------------------------------- *)
 Theorem fibonacci_size_bound : forall t, bal t -> (fib (ht t + 2) <= size t + 1)%nat.
@@ -341,6 +373,17 @@ Example ex_remove_key_one :
   count_list 5 (inorder (tr (m_sel st))) = 3%nat /\
   inorder (tr (m_sel st')) = [(3, 3, 2%nat); (3, 6, 5%nat); (5, 4, 3%nat); (5, 5, 4%nat); (7, 7, 6%nat)].
 Proof. vm_compute. split; [reflexivity|split; reflexivity]. Qed.
+
+(* the reference on [3 3 5 5 5 7], remove(5): rank 4 (value 5, the newest 5) is accepted and gives another multimap
+   than the model's rank 2; rank 1 (a 3) and rank 9 (no entry) are rejected; remove(4) (absent) changes nothing *)
+Example ex_remove_key_any_of_run :
+  let sp := abs (run FMulti m_init ex_ops_multi) in
+  choice_of FMulti (run FMulti m_init ex_ops_multi) (ORemKey 5) = 2%nat /\
+  s_sel (fst (spec_step FMulti sp (ORemKey 5) 4)) = [(3, 3, 2%nat); (3, 6, 5%nat); (5, 2, 1%nat); (5, 4, 3%nat); (7, 7, 6%nat)] /\
+  snd (spec_step FMulti sp (ORemKey 5) 4) = RNone /\
+  snd (spec_step FMulti sp (ORemKey 5) 1) = RBad /\ snd (spec_step FMulti sp (ORemKey 5) 9) = RBad /\
+  spec_step FMulti sp (ORemKey 4) 0 = (sp, RNone).
+Proof. vm_compute. repeat split; reflexivity. Qed.
 
 (* the reference, run on the same history with the model's choices, produces these results *)
 Example ex_trace_multi :
